@@ -1081,7 +1081,7 @@ func (env *SpecEnv) callExpr(e *SExpr) SVal {
 		case "dpow10":
 			vc.needStr, vc.needDigits, rs = true, true, sortInt
 		case "beval":
-			vc.needBytes, rs = true, sortInt
+			vc.needBytes, vc.needBeval, rs = true, true, sortInt
 		case "beenc":
 			vc.needBytes, rs = true, &Sort{K: SOpaque, Name: "Bytes"}
 		case "select":
